@@ -45,7 +45,10 @@ impl CopyHandle {
         let infd = File::open(from)?;
         let metadata = infd.metadata()?;
 
-        if to.exists() && is_same_file(from, to)? {
+        // Only a definite "not there" may skip the same-file test: if
+        // the lookup itself fails we must not go on to truncate what
+        // may be the source.
+        if to.try_exists()? && is_same_file(from, to)? {
             return Err(XcpError::InvalidDestination("Source and destination are the same file.").into());
         }
 
